@@ -6,7 +6,7 @@
   check runs against the real macros / mpn_* functions on every run.  B = 2^64; all statements
   quantify over ALL 64-bit words and ALL lengths.
 -/
-import MpirProofs.Lemmas.DivWord
+import MpirProofs.Lemmas.DivWordHensel
 namespace Mpir.DivWord
 open Mpir
 
